@@ -229,6 +229,8 @@ type c05Suite struct {
 	TLS    bool      `json:"reliesOnTls"`
 	Certs  bool      `json:"reliesOnTlsClientCerts"`
 	Protos []int     `json:"relevantProtocols"`
+	// SuiteMode: 0 every run mode, 1 only when a client is tested, 2 only when a server is tested
+	SuiteMode int `json:"suiteMode,omitempty"`
 }
 type c05In struct {
 	Mode        string     `json:"mode"` // both: recording client + recording servers; client: recording client, in-process reference + grpc servers
@@ -308,7 +310,7 @@ func c05Files(in c05In, dir string) (map[string][]byte, []string) {
 	files := map[string][]byte{}
 	var paths []string
 	for i, s := range in.Suites {
-		suite := &conformancev1.TestSuite{Name: s.Name, ReliesOnTls: s.TLS, ReliesOnTlsClientCerts: s.Certs}
+		suite := &conformancev1.TestSuite{Name: s.Name, ReliesOnTls: s.TLS, ReliesOnTlsClientCerts: s.Certs, Mode: conformancev1.TestSuite_TestMode(s.SuiteMode)}
 		for _, p := range s.Protos {
 			suite.RelevantProtocols = append(suite.RelevantProtocols, conformancev1.Protocol(p))
 		}
